@@ -14,7 +14,7 @@ class Node(dict):
 
 
 class Block:
-    __slots__ = ("id", "elems", "succs", "usuccs", "tk", "tc", "tl", "tm", "case",
+    __slots__ = ("id", "elems", "succs", "usuccs", "tk", "tc", "ts", "tl", "tm", "case",
                  "casename", "default", "label", "noret", "goto", "preds")
 
     def __init__(self, d):
@@ -32,6 +32,7 @@ class Block:
                 self.succs.append(s)
         self.tk = d.get("tk")
         self.tc = d.get("tc")
+        self.ts = d.get("ts")
         self.tl = d.get("tl")
         self.tm = d.get("tm", [])
         self.case = d.get("case")
